@@ -98,3 +98,38 @@ Definition model_step_out (c : kcase) (k : nat) : option (store * outcome) :=
      | KAttrSame v user uid r obs :: t =>
        match k with O => Some (step v user s uid r) | S k' => go (fst (step v user s uid r)) t k' end
      end) (fst c) (snd c) k.
+
+(* ------------------------------------------------------------------ batches addressed through the ID placeholder *)
+(* observed batch: creating items and other items are given by the store observed after them (twin engine runs), the
+   attribute item by its request and observed outcome; Coq replays the batch on the model from placeholder None *)
+Inductive kitem :=
+| KICreate (after : store) (u : Z)
+| KIOther (after : store)
+| KIAttr (uid : option Z) (r : areq) (obs : string).
+Record pcase := mkP { p_ver : version; p_user : string; p_cont : bool; p_store : store; p_items : list kitem; p_final : store }.
+
+Fixpoint preplay (v : version) (user : string) (cont : bool) (st : bstate) (b : list kitem) : option bstate :=
+  match b with
+  | [] => Some st
+  | KICreate after u :: t =>
+    let n := List.length (fst st) in
+    if store_eqb (firstn n after) (fst st)
+    then preplay v user cont (fst (step_item v user st (ICreating (skipn n after) u))) t
+    else None
+  | KIOther after :: t => preplay v user cont (fst (step_item v user st (IOther (fun _ => after)))) t
+  | KIAttr uid r obs :: t =>
+    let so := step_item v user st (IAttr uid r) in
+    match snd so with
+    | RAttr out =>
+      if outcome_matches out obs
+      then (if negb cont && failed_result (snd so) then Some (fst so) else preplay v user cont (fst so) t)
+      else None
+    | _ => None
+    end
+  end.
+
+Definition check_pcase (c : pcase) : bool :=
+  match preplay (p_ver c) (p_user c) (p_cont c) (p_store c, None) (p_items c) with
+  | Some st => store_eqb (fst st) (p_final c)
+  | None => false
+  end.
